@@ -360,16 +360,16 @@ def standard_build(chk: Check, gens, targets, theorems, prop_files):
         other_bad = {f: v for f, v in bad.items() if f not in prop_files}
         if other_bad:
             chk.oblige('lean-build-deps', 'build', False, json.dumps({k: sorted(map(str, v)) for k, v in other_bad.items()}))
-        if ok or not other_bad:
-            aud = audit(chk.id, [t for t in theorems if t not in bad_here]) if (ok or bad_here) else {}
-        else:
-            aud = {}
+        aud = audit(chk.id, theorems) if ok else {}
         for t in theorems:
             if t in bad_here:
                 chk.oblige(f'theorem:{t}', 'theorem', False, 'does not compile against the regenerated model')
             elif t in aud:
                 a_ok, ax = aud[t]
                 chk.oblige(f'theorem:{t}', 'theorem', a_ok, f'axioms={ax}')
+            elif bad_here:
+                chk.oblige(f'theorem:{t}', 'theorem', False, 'not audited in this run: the property file did not compile because of '
+                           + ', '.join(sorted(map(str, bad_here))))
             else:
                 chk.oblige(f'theorem:{t}', 'theorem', False, 'not checked (build of a dependency failed)')
         extra_bad = bad_here - set(theorems)
